@@ -254,10 +254,7 @@ Lemma wr2_rng s f : frame_rng f -> Forall frame_rng (snd (wr2 s f)).
 Proof. intros H. apply Forall_forall. intros g Hin. apply wr2_out in Hin. subst. exact H. Qed.
 
 Lemma rx_arp_out_rng s p : pkt_rng p -> Forall frame_rng (snd (rx_arp c s p)).
-Proof.
-  intros Hp. destruct (rx_arp_cases c s p) as [E|[[_ [_ [_ E]]]|[_ [_ E]]]]; rewrite E; simpl; try constructor.
-  apply wr2_rng. apply rng_probe_reject; auto.
-Qed.
+Proof. intros Hp. rewrite rx_arp_silent. constructor. Qed.
 
 Lemma out_rng s e : state_rng s -> event_rng e -> Forall frame_rng (snd (step c s e)).
 Proof.
@@ -340,8 +337,8 @@ Lemma rxq_rng_step s e : state_rng s -> event_rng e -> Forall frame_rng (rxq (fs
 Proof.
   intros Hs He. pose proof (rng_rxq _ Hs) as Hq. pose proof (step_rxq c s e) as G.
   assert (Hrx : forall p, pkt_rng p -> Forall frame_rng (rxq (fst (rx_arp c s p)))).
-  { intros p Hp. destruct (rx_arp_queue c s p) as [E|[_ E]]; rewrite E; auto.
-    apply Forall_app. split; auto. constructor; [|constructor]. apply rng_spoof_reply; auto. }
+  { intros p Hp. destruct (rx_arp_queue c s p) as [E|[[_ E]|[_ E]]]; rewrite E; auto;
+      apply Forall_app; split; auto; (constructor; [|constructor]); [apply rng_spoof_reply|apply rng_probe_reject]; auto. }
   destruct e as [a| |m0| |i|i|i|p|kr|et b|m1 o|kf|ip|dst ip|ip|dst ip|dst sn tg|dst sn tg| |j|j|ip n| ];
     try (rewrite G; exact Hq).
   - apply Hrx. exact He.
